@@ -117,6 +117,42 @@ CLAIMED['C04'] = (
     '(g^ir | Ni | Nr with PFS) belongs to the handler contracts, assumed at this stage.',
     'DESIGN.md section 6 C04')
 
+OVERRIDE = {}
+CLAIMED['C14'] = (
+    'Exact, by evaluation against the UAPI headers: a C program compiled on every run against <linux/xfrm.h> / '
+    '<linux/netlink.h> prints sizeof/offsetof of the kernel structures and the values of the constants; every ctypes '
+    'mirror of xfrm.py / netlink.py is compared member by member through a hand-written class-to-struct mapping '
+    '(offset, size, total size; an unmapped class fails), the byte order of every __be16/__be32 member is observed, and '
+    'every constant that any code reads equals the header value (17 layouts, 15 byte orders, 8 constant groups, '
+    'attribute wrapper, payload/attribute dispatch tables).  BOUNDED, never counted as proved: the real request builders '
+    '(create_sa, create_child_sa, create_policy/policies, delete_sa, delete_child_sa, flush) are run on a grid of 4431 '
+    'calls with a recording socket and the 5671 datagrams are decoded by the C program through casts to the kernel '
+    'structures and compared with the intent (header length/type/flags, attribute framing, addresses, family, prefix '
+    'lengths, network-order ports and masks, protocol, SPI, mode, algorithm names, key length and bytes, lifetimes); '
+    '330 C-encoded ACQUIRE / EXPIRE / ack / error messages are fed to the real Xfrm.parse_message.',
+    'The builders and parsers operate on ctypes objects, which the contract verifier does not model: their for-all-inputs '
+    'clauses are NOT proved, only the finite layout / constant tables are decided exhaustively.  Reference for "the '
+    'kernel ABI" is gcc + the installed UAPI headers on x86-64.  Open finding F15 (ICV truncation of hmac(sha256)).  '
+    'contracts/C14_NOTES.md lists every assumption.',
+    'DESIGN.md section 6 C14')
+OVERRIDE['C14'] = ('other', 'evaluated layout/constant facts against a C oracle compiled from the UAPI headers (exact) + bounded '
+                   'differential decode of the real request builders (labelled bounded); contracts cannot reach ctypes code')
+CLAIMED['C20'] = (
+    'Exhaustive static information-flow fact over the real ast of every module (re-parsed on every run): no expression '
+    'that may carry the PSK, a private key, SKEYSEED, any SK_* / CHILD_SA key, prf+ output or a DH shared secret (sources '
+    'by API and by name; propagation through assignments, formatting, hex/str/repr, containers, calls with '
+    'per-function summaries, attributes by name, exception messages) reaches a logging call, print or raise site that is '
+    'enabled at the default level; the default level is INFO and only --verbose lowers it (decided on the ast of '
+    'pyikev2.py); a vacuity guard requires the known debug-level key dumps to be recognised as tainted.  One obligation '
+    'per sink call site (75 log sites, 77 raise sites) named by function and ordinal.',
+    'Over-approximation (flow-insensitive for attributes, may-alias for mutation); implicit flows through comparisons are '
+    'not tracked; declassifiers (ciphertext, MAC, AUTH data, public keys, lengths) are listed in contracts/C20_NOTES.md; '
+    'assumes third-party libraries do not log their arguments.  This is a frame-style fact decided on the source text, '
+    'not a functional contract discharged by the solver.',
+    'DESIGN.md section 6 C20')
+OVERRIDE['C20'] = ('proof', 'static taint (information-flow) analysis over the real ast, exhaustive over all sinks and paths '
+                   '(over-approximating); back end eval-ast')
+
 NOT_YET ='not yet claimed: contracts for this property are still being brought under the verifier (DESIGN.md section 6)'
 
 
@@ -127,6 +163,7 @@ def main():
         pid = p['id']
         if pid in CLAIMED:
             text, note, ref = CLAIMED[pid]
+            cat, tech = OVERRIDE.get(pid, ('proof', TECH))
             checks.append({
                 'property_id': pid,
                 'quick_cmd': f'python3-vt check.py {pid} --tier quick',
@@ -134,9 +171,9 @@ def main():
                 'evidence_file': f'/verif/evidence/{pid}.json',
                 'replay_cmd_template': 'python3-vt check.py --replay {path}',
                 'engine': 'pyvc',
-                'level_claimed': {'category': 'proof', 'text': text, 'design_ref': ref},
+                'level_claimed': {'category': cat, 'text': text, 'design_ref': ref},
                 'level_note': note,
-                'technique': TECH,
+                'technique': tech,
             })
         else:
             na.append({'property_id': pid, 'reason': NOT_YET})
